@@ -101,6 +101,9 @@ let next_fspec () = match next () with
   | "four" -> FFour (next_fr ())
   | s -> failwith ("bad fspec " ^ s)
 
+let str_path (p : (z * z) list) =
+  String.concat " " (string_of_int (List.length p) :: List.map (fun (x, y) -> string_of_z x ^ " " ^ string_of_z y) p)
+
 let b2s b = if b then "1" else "0"
 let diag_str d = match d with
   | None -> "FAIL nodiag"
@@ -117,6 +120,11 @@ let handle cmd =
     let (lo, hi) = multiplyUInt64 a b in string_of_z lo ^ " " ^ string_of_z hi
   | "col" -> let a = next_pt () in let b = next_pt () in let c = next_pt () in b2s (isCollinear a b c)
   | "cross" -> let a = next_pt () in let b = next_pt () in let c = next_pt () in string_of_z (crossProduct a b c)
+  | "noop" -> "OK"
+  | "trim" ->
+    let o = next_int () = 1 in let p = next_path () in
+    let ex = trim_exact p o in
+    str_path (trim_faithful p o) ^ " ; " ^ str_path ex ^ " ; " ^ str_path (trim_exact ex o)
   | "gen" ->
     let sp = next_fspec () in let rm = next_z () in
     let fuel = nat_of_int (next_fuel ()) in let r2 = next_q () in
